@@ -22,8 +22,134 @@ def tokens(text):
     return TOKRE.findall(text)
 
 
+def unbrace(toks):
+    """`|x| { e }` = `|x| e` and `pat => { e }` = `pat => e,` (what rustfmt does in either direction): drop
+    the braces around a closure body or a match arm that is a single expression, and make the comma
+    after a match arm uniform (none after a block, one after an expression)"""
+    out = list(toks)
+    changed = True
+    while changed:
+        changed = False
+        for i, t in enumerate(out):
+            if t != "{" or i == 0 or out[i - 1] not in ("|", "=>"):
+                continue
+            depth, j, semis = 1, i + 1, 0
+            while j < len(out) and depth:
+                if out[j] in ("{", "(", "["):
+                    depth += 1
+                elif out[j] in ("}", ")", "]"):
+                    depth -= 1
+                elif out[j] == ";" and depth == 1:
+                    semis += 1
+                j += 1
+            if depth:
+                break
+            close = j - 1
+            inner = out[i + 1:close]
+            holes = len(inner) == 1 and bool(re.fullmatch(r"HOLE[WXG]\d+", inner[0]))   # a template's hole standing for statements
+            if semis == 0 and inner and inner[0] not in ("let",) and not holes:
+                arm = out[i - 1] == "=>"
+                tail = out[close + 1:]
+                if arm and (not tail or tail[0] not in (",", "}")):
+                    tail = [","] + tail
+                out = out[:i] + inner + tail
+                changed = True
+                break
+            if out[i - 1] == "=>" and close + 1 < len(out) and out[close + 1] == "," and not holes:
+                del out[close + 1]
+                changed = True
+                break
+    return out
+
+
+def rewrites(toks):
+    """two spellings of the same thing: `0 != x` = `x != 0` (a literal on the left of `==` / `!=` with a
+    plain identifier on the right), `x = x + e;` = `x += e;` (also `-`)"""
+    out, i = [], 0
+    n = len(toks)
+    while i < n:
+        t = toks[i]
+        if (re.fullmatch(r"\d[\d_]*", t) and i + 2 < n and toks[i + 1] in ("==", "!=")
+                and re.fullmatch(r"[a-z_][A-Za-z0-9_]*", toks[i + 2])
+                and (i + 3 >= n or toks[i + 3] not in (".", "(", "[", "::", "as"))
+                and (i == 0 or toks[i - 1] not in (".", "+", "-", "*", "/", "%", "<<", ">>", "&", "|", "^", "as"))):
+            out += [toks[i + 2], toks[i + 1], t]
+            i += 3
+            continue
+        if (re.fullmatch(r"[a-z_][A-Za-z0-9_]*", t) and i + 3 < n and toks[i + 1] == "=" and toks[i + 2] == t
+                and toks[i + 3] in ("+", "-") and (i == 0 or toks[i - 1] in (";", "{", "}"))):
+            out += [t, toks[i + 3] + "="]
+            i += 4
+            continue
+        if (t in ("f64", "f32", "i64", "u64", "usize", "isize", "u32", "i32", "u16", "i16", "u128", "i128") and i + 5 < n
+                and toks[i + 1] == "::" and toks[i + 2] == "from" and toks[i + 3] == "("
+                and re.fullmatch(r"[a-z_][A-Za-z0-9_]*", toks[i + 4]) and toks[i + 5] == ")"):
+            # `T::from(x)` exists only where the conversion is lossless, and then it is `x as T`
+            out += [toks[i + 4], "as", t]
+            i += 6
+            continue
+        out.append(t)
+        i += 1
+    return flip_comparisons(strip_let_types(out))
+
+
+def strip_let_types(toks):
+    """`let x: T = e` = `let x = e` (an annotation the compiler would infer)"""
+    out, i, n = [], 0, len(toks)
+    while i < n:
+        out.append(toks[i])
+        if toks[i] == "let":
+            depth, j, colon = 0, i + 1, None
+            while j < n and not (depth == 0 and toks[j] in ("=", ";")):
+                if toks[j] in ("(", "[", "{", "<"):
+                    depth += 1
+                elif toks[j] in (")", "]", "}", ">"):
+                    depth -= 1
+                elif toks[j] == ":" and depth == 0 and colon is None:
+                    colon = j
+                j += 1
+            if colon is not None and j < n and toks[j] == "=":
+                out += toks[i + 1:colon]
+                i = j
+                continue
+        i += 1
+    return out
+
+
+def flip_comparisons(toks):
+    """`a >= b` = `b <= a`, `a > b` = `b < a` when both sides are simple (a literal, or an identifier /
+    `self` followed by field accesses) and the comparison stands alone between delimiters"""
+    def operand(i):
+        # index just past a simple operand starting at i, or None
+        if i >= len(toks):
+            return None
+        if re.fullmatch(r"\d[\d_]*", toks[i]):
+            return i + 1
+        if not re.fullmatch(r"[A-Za-z_][A-Za-z0-9_]*", toks[i]) or toks[i] in ("if", "return", "let", "match", "as"):
+            return None
+        j = i + 1
+        while j + 1 < len(toks) and toks[j] == "." and re.fullmatch(r"[A-Za-z_][A-Za-z0-9_]*|\d+", toks[j + 1]) \
+                and (j + 2 >= len(toks) or toks[j + 2] != "("):
+            j += 2
+        return j
+    out, i = list(toks), 0
+    while i < len(out):
+        toks = out
+        if i == 0 or out[i - 1] in ("(", "if", "&&", "||", "{", ";", "!", "=", "return", ","):
+            e1 = operand(i)
+            if e1 is not None and e1 < len(out) and out[e1] in (">=", ">"):
+                e2 = operand(e1 + 1)
+                if e2 is not None and (e2 >= len(out) or out[e2] in (")", "{", "&&", "||", ";", ",", "}")):
+                    flipped = out[e1 + 1:e2] + [{">=": "<=", ">": "<"}[out[e1]]] + out[i:e1]
+                    out = out[:i] + flipped + out[e2:]
+                    i = e2
+                    continue
+        i += 1
+    return out
+
+
 def canon(text, params=()):
-    toks = tokens(text)
+    toks = rewrites(unbrace(tokens(text)))
     toks = [t for i, t in enumerate(toks) if not (t == "," and i + 1 < len(toks) and toks[i + 1] in (")", "}", "]"))]
     params = list(params)
     # 1. expand struct shorthand
@@ -46,17 +172,129 @@ def canon(text, params=()):
         else:
             out.append(t)
             marks.append(False)
-    # 2. rename variables
-    names = {p: "P%d" % k for k, p in enumerate(params)}
+    # 2. rename variables; every *binding occurrence* (`let` pattern, closure parameter, match-arm /
+    #    `if let` pattern, `for` variable) starts a fresh variable, so shadowing a name and picking a new
+    #    one come out the same.  A `let` binding takes effect after its statement (`let x = x + 1`).
+    n = len(out)
+
+    def is_var(k):
+        t = out[k]
+        prev = out[k - 1] if k else ""
+        nxt = out[k + 1] if k + 1 < n else ""
+        return bool(IDENT.match(t) and (t not in KEEP or t in params) and not marks[k]
+                    and prev not in (".", "::", "'") and nxt not in ("::", "!", "("))
+
+    binder = [False] * n            # token k is a binding occurrence
+    activate_at = {}                # k -> index from which the binding is visible
+    # (a) let patterns
+    for k, t in enumerate(out):
+        if t != "let":
+            continue
+        depth, e = 0, k + 1
+        while e < n and not (depth == 0 and out[e] in ("=", ";")):
+            depth += {"(": 1, "[": 1, "{": 1, ")": -1, "]": -1, "}": -1}.get(out[e], 0)
+            e += 1
+        # a type annotation `: T` is not part of the pattern
+        pat_end, depth = e, 0
+        for q in range(k + 1, e):
+            depth += {"(": 1, "[": 1, "{": 1, "<": 0, ")": -1, "]": -1, "}": -1}.get(out[q], 0)
+            if depth == 0 and out[q] == ":" and not (q and marks[q - 1]):
+                pat_end = q
+                break
+        # visible after the terminating `;` (statement) or at the `{` that opens an `if let` / `else` body
+        cond_let = k > 0 and out[k - 1] in ("if", "while")
+        depth, a = 0, e
+        while a < n:
+            if depth == 0 and (out[a] == ";" or (cond_let and out[a] == "{")):
+                break
+            if cond_let:
+                depth += {"(": 1, "[": 1, ")": -1, "]": -1}.get(out[a], 0)
+            else:
+                depth += {"(": 1, "[": 1, "{": 1, ")": -1, "]": -1, "}": -1}.get(out[a], 0)
+            a += 1
+        for q in range(k + 1, pat_end):
+            if is_var(q) and out[q] != "mut":
+                binder[q] = True
+                activate_at[q] = a + 1
+    # (b) closure parameters
+    k = 0
+    while k < n:
+        if out[k] == "|" and (k == 0 or out[k - 1] in ("(", ",", "=", "move", "{", ";")):
+            e = k + 1
+            while e < n and out[e] != "|":
+                e += 1
+            depth = 0
+            for q in range(k + 1, e):
+                if out[q] == ":" and depth == 0:
+                    depth = 1                       # skip a type annotation up to the next comma
+                elif out[q] == ",":
+                    depth = 0
+                elif depth == 0 and is_var(q):
+                    binder[q] = True
+                    activate_at[q] = e + 1
+            k = e + 1
+        else:
+            k += 1
+    # (c) match-arm patterns (everything between the start of the arm and `=>`)
+    for k, t in enumerate(out):
+        if t != "=>":
+            continue
+        depth, b = 0, k - 1
+        while b >= 0:
+            u = out[b]
+            if u in (")", "]"):
+                depth += 1
+            elif u == "}":
+                if depth == 0 and out[b + 1] not in ("=>", "|", "if"):
+                    break
+                depth += 1
+            elif u in ("(", "[", "{"):
+                if depth == 0:
+                    break
+                depth -= 1
+            elif u == "," and depth == 0:
+                break
+            b -= 1
+        stop = k
+        for q in range(b + 1, k):
+            if out[q] == "if":
+                stop = q
+                break
+        for q in range(b + 1, stop):
+            if is_var(q):
+                binder[q] = True
+                activate_at[q] = k + 1
+    # (d) `for x in`
+    for k, t in enumerate(out):
+        if t == "for":
+            e = k + 1
+            while e < n and out[e] != "in":
+                e += 1
+            for q in range(k + 1, e):
+                if is_var(q):
+                    binder[q] = True
+                    activate_at[q] = e + 1
+    current = {p: "P%d" % k for k, p in enumerate(params)}
+    pending = []                    # (activation index, name, label)
+    fresh = [0]
+
+    def new_label():
+        fresh[0] += 1
+        return "v%d" % (fresh[0] - 1)
+
     res = []
-    for i, t in enumerate(out):
-        prev = out[i - 1] if i else ""
-        nxt = out[i + 1] if i + 1 < len(out) else ""
-        if (IDENT.match(t) and (t not in KEEP or t in names) and not marks[i]
-                and prev not in (".", "::", "'") and nxt not in ("::", "!", "(")):
-            if t not in names:
-                names[t] = "v%d" % (len(names) - len(params))
-            res.append(names[t])
+    for k, t in enumerate(out):
+        for item in [x for x in pending if x[0] <= k]:
+            current[item[1]] = item[2]
+            pending.remove(item)
+        if binder[k]:
+            lab = new_label()
+            pending.append((activate_at[k], t, lab))
+            res.append(lab)
+        elif is_var(k):
+            if t not in current:
+                current[t] = new_label()            # a free variable of the fragment
+            res.append(current[t])
         else:
             res.append(t)
     return " ".join(res)
